@@ -6,7 +6,10 @@
 //   runtime's from-reference alternative); mode 3: the second consumer sits inside a nested graph node and
 //   receives the reference across the graph boundary.
 //   modes (enumerated first): 0 if_then_else over TS<int>; 1 if_cmp over TS<int> (three targets);
-//                             2 if_then_else over TSS<int>; 3 if_then_else over TS<int>, consumer 1 nested
+//                             2 if_then_else over TSS<int>; 3 if_then_else over TS<int>, consumer 1 nested;
+//                             4 if_then_else between the two ELEMENTS of one TSL<TS<int>,2> output;
+//                             5 if_then_else between the two FIELDS of one TSB{p,q} output (the reference is retargeted
+//                               between positions of the same node output: the owning output does not change)
 //   symbolic  : every payload value of the TS targets (drawn by the source nodes in the cycle they are used)
 //   enumerated: per cycle whether the selector ticks and what it selects, which targets tick (sets: which
 //               element is added / removed) - i.e. the relative timing of retargets and target ticks,
@@ -24,7 +27,7 @@
 #include <cstdio>
 
 #ifndef MODES
-#define MODES 0xf  // bit m enables mode m
+#define MODES 0x3f  // bit m enables mode m
 #endif
 #ifndef NCYC0
 #define NCYC0 4
@@ -38,6 +41,12 @@
 #ifndef NCYC3
 #define NCYC3 4
 #endif
+#ifndef NCYC4
+#define NCYC4 4
+#endif
+#ifndef NCYC5
+#define NCYC5 3
+#endif
 #ifndef VMAX
 #define VMAX 1000
 #endif
@@ -49,7 +58,7 @@ namespace {
 constexpr int MAXT = 3;  // targets (if_cmp has three)
 constexpr int MAXC = 6;  // cycles
 constexpr int NCONS = 2;
-static_assert(NCYC0 <= MAXC && NCYC1 <= MAXC && NCYC2 <= MAXC && NCYC3 <= MAXC, "raise MAXC");
+static_assert(NCYC0 <= MAXC && NCYC1 <= MAXC && NCYC2 <= MAXC && NCYC3 <= MAXC && NCYC4 <= MAXC && NCYC5 <= MAXC, "raise MAXC");
 
 // ---- script (filled before the run) --------------------------------------------------------------
 int g_ncyc = 0;
@@ -126,6 +135,37 @@ struct SrcS {
         if (c + 1 < g_ncyc) s.schedule(MIN_TD);
     }
 };
+// one node output holding both candidate targets
+struct SrcPairList {
+    static constexpr auto name = "c13_src_pair_list";
+    static constexpr bool schedule_on_start = true;
+    static void eval(NodeScheduler s, DateTime now, Out<TSL<TS<Int>, 2>> out) {
+        int c = cycle_of(now);
+        if (c < 0 || c >= g_ncyc) return;
+        for (int i = 0; i < 2; i++) {
+            g_tick[i][c] = verif_bool("tick");
+            g_val[i][c] = g_tick[i][c] ? verif_range("v", -VMAX, VMAX) : Int{0};
+            if (g_tick[i][c]) out[(std::size_t)i].set(g_val[i][c]);
+        }
+        if (c + 1 < g_ncyc) s.schedule(MIN_TD);
+    }
+};
+using PairBundle = TSB<"C13Pair", Field<"p", TS<Int>>, Field<"q", TS<Int>>>;
+struct SrcPairBundle {
+    static constexpr auto name = "c13_src_pair_bundle";
+    static constexpr bool schedule_on_start = true;
+    static void eval(NodeScheduler s, DateTime now, Out<PairBundle> out) {
+        int c = cycle_of(now);
+        if (c < 0 || c >= g_ncyc) return;
+        for (int i = 0; i < 2; i++) {
+            g_tick[i][c] = verif_bool("tick");
+            g_val[i][c] = g_tick[i][c] ? verif_range("v", -VMAX, VMAX) : Int{0};
+        }
+        if (g_tick[0][c]) out.field<"p">().set(g_val[0][c]);
+        if (g_tick[1][c]) out.field<"q">().set(g_val[1][c]);
+        if (c + 1 < g_ncyc) s.schedule(MIN_TD);
+    }
+};
 struct ConsI {
     static constexpr auto name = "c13_cons_int";
     static void eval(In<"x", TS<Int>> x, Scalar<"id", Int> id, DateTime now) {
@@ -190,6 +230,30 @@ struct TopSet {
         wire<ConsS>(w, r, Int{1});
     }
 };
+struct TopPairList {
+    static constexpr auto name = "c13_ite_pair_list";
+    static void compose(Wiring &w) {
+        auto sel = wire<SelBool>(w);
+        auto pair = wire<SrcPairList>(w);
+        Port<TS<Int>> a{w, pair.node(), {0}};
+        Port<TS<Int>> b{w, pair.node(), {1}};
+        auto r = wire<stdlib::if_then_else_impl>(w, sel, a, b);
+        wire<ConsI>(w, r, Int{0});
+        wire<ConsI>(w, r, Int{1});
+    }
+};
+struct TopPairBundle {
+    static constexpr auto name = "c13_ite_pair_bundle";
+    static void compose(Wiring &w) {
+        auto sel = wire<SelBool>(w);
+        auto pair = wire<SrcPairBundle>(w);
+        Port<TS<Int>> a{w, pair.node(), {0}};
+        Port<TS<Int>> b{w, pair.node(), {1}};
+        auto r = wire<stdlib::if_then_else_impl>(w, sel, a, b);
+        wire<ConsI>(w, r, Int{0});
+        wire<ConsI>(w, r, Int{1});
+    }
+};
 struct NestedConsumerTag {};
 struct TopNested {
     static constexpr auto name = "c13_ite_nested";
@@ -213,14 +277,15 @@ struct TopNested {
 extern "C" int harness_main() {
     // ---- mode first; the script (enumerated timing, symbolic payloads) is drawn lazily by the source nodes in the cycle
     // that uses it, so that all histories share the graph build and their common prefix of cycles
-    const int mode = verif_choice("mode", 4);
+    const int mode = verif_choice("mode", 6);
     if (!((MODES >> mode) & 1)) { verif_end_path(); return 0; }
     const int nt = mode == 1 ? 3 : 2;
     const bool sets = mode == 2;
-    g_ncyc = mode == 0 ? NCYC0 : mode == 1 ? NCYC1 : mode == 2 ? NCYC2 : NCYC3;
+    g_ncyc = mode == 0 ? NCYC0 : mode == 1 ? NCYC1 : mode == 2 ? NCYC2 : mode == 3 ? NCYC3 : mode == 4 ? NCYC4 : NCYC5;
     g_t0 = MIN_ST;
     {
-        GraphBuilder gb = mode == 0 ? build_graph<TopIte>() : mode == 1 ? build_graph<TopCmp>() : mode == 2 ? build_graph<TopSet>() : build_graph<TopNested>();
+        GraphBuilder gb = mode == 0 ? build_graph<TopIte>() : mode == 1 ? build_graph<TopCmp>() : mode == 2 ? build_graph<TopSet>() : mode == 3 ? build_graph<TopNested>()
+                          : mode == 4 ? build_graph<TopPairList>() : build_graph<TopPairBundle>();
         run_sim(std::move(gb), g_t0, g_t0 + TimeDelta{g_ncyc + 2});
     }
 
@@ -233,7 +298,7 @@ extern "C" int harness_main() {
     Int exp_val[MAXC];
     bool exp_has[MAXC][3], exp_added[MAXC][3], exp_removed[MAXC][3], exp_retarget[MAXC];
     bool any_retarget_valid = false, any_retarget_invalid = false, any_reselect = false, any_unselected = false, any_back = false, any_same_cycle = false,
-         any_set_diff = false;
+         any_set_diff = false, any_within = false;
     int first_target = -1;
     for (int c = 0; c < g_ncyc; c++) {
         bool before[3] = {false, false, false};
@@ -260,6 +325,7 @@ extern "C" int harness_main() {
                 if (cur >= 0 && first_target == want) any_back = true;
                 if (first_target < 0) first_target = want;
                 if (t_valid[want]) { any_retarget_valid = true; if (ticked[want]) any_same_cycle = true; } else any_retarget_invalid = true;
+                if (mode >= 4 && cur >= 0 && t_valid[want] && t_valid[cur]) any_within = true;  // both positions of ONE output hold a value
             } else {
                 any_reselect = true;
             }
@@ -332,7 +398,10 @@ extern "C" int harness_main() {
     if (any_back) verif_reach("retarget_back");
     if (any_set_diff) verif_reach("set_retarget_with_difference");
     if (saw_spurious) verif_reach("class_set_retarget_spurious_removal");
-    if (evals > 0) verif_reach(mode == 0 ? "consumer_evaluated_if_then_else" : mode == 1 ? "consumer_evaluated_if_cmp" : mode == 2 ? "consumer_evaluated_set" : "consumer_evaluated_nested");
+    if (any_within) verif_reach("retarget_within_same_output");
+    if (any_within && mode == 5) verif_reach("retarget_within_same_bundle_output");
+    if (evals > 0) verif_reach(mode == 0 ? "consumer_evaluated_if_then_else" : mode == 1 ? "consumer_evaluated_if_cmp" : mode == 2 ? "consumer_evaluated_set" : mode == 3 ? "consumer_evaluated_nested"
+                               : "consumer_evaluated_same_output");
     verif_log("mode", mode);
     verif_log("evals", evals);
     verif_reach("end");
